@@ -99,6 +99,7 @@ def build(tier, seed, exclude):
            ["1 <= len(stem) <= 2 and 1 <= len(e1) <= 2 and 1 <= len(e2) <= 2",
             "all(c not in stem + e1 + e2 for c in ('/', '.', chr(0)))"], """
         keep = T.real(keep)                                   # the task class is cached per (template, keep): no symbolic value may get into it
+        stem, e1, e2, two = T.real((stem, e1, e2, two))
         ext = [e1] + ([e2] if two else [])
         fname = ".".join([stem] + ext)
         try:
